@@ -1,14 +1,69 @@
-(* Correspondence run for C06: case = the range (per deposit: well-formed with its message, or
-   poisoned with the outcome the REAL deposit handler produced on its bytes in isolation) + what the
-   real ProcessDeposits / HandleEvents did with the whole range. *)
-From Coq Require Import List NArith Bool.
+(* Correspondence run for C06: case = the range; per deposit: the handler kind and the BYTES (whether it
+   is well-formed is decided here, in the kernel, by the wire-format predicates wf_* of Model/C01.v)
+   and the outcome the REAL deposit handler produced on it in isolation (used as the adversary's
+   choice when the deposit is not well-formed) + what the real ProcessDeposits / HandleEvents did with
+   the whole range. *)
+From Coq Require Import List NArith Bool String.
 Import ListNotations.
 From SygmaV Require Export Lib.RunLib Model.C06.
+From SygmaV Require Import Lib.Hex Lib.C01_Bytes Model.C01.
 Local Open Scope N_scope.
+
+(* handler kind whose wire format applies; KNone: never well-formed (unknown resource, log that does
+   not unpack, event of another kind, transaction that does not pay the bridge, ...) *)
+Inductive hkind := KErc20 | KErc721 | KErc1155 | KGeneric | KSub | KBtc | KNone.
+
+(* what the real handler did on the deposit alone *)
+Inductive measured := MOk (dest : N) | MErr | MPanic | MSkip.
+
+Record item := mkItem { i_kind : hkind; i_dest : N; i_data : string; i_hr : string; i_meas : measured; i_st : status }.
+
+Definition hx (s : string) : bytes := bytes_of_Ns (unhex s).
+
+Definition as_dep (it : item) : Model.C01.deposit :=
+  mkDep 0 (i_dest it) 0 [] (hx (i_data it)) (hx (i_hr it)) 19000.
+
+Definition item_wf (it : item) : bool :=
+  match i_kind it with
+  | KErc20 => wf_erc20 (as_dep it)
+  | KErc721 => wf_erc721 (as_dep it)
+  | KErc1155 => wf_erc1155 (as_dep it)
+  | KGeneric => wf_generic (as_dep it)
+  | KSub => wf_sub (as_dep it)
+  | KBtc => wf_btc (as_dep it)
+  | KNone => false
+  end.
+
+(* destination of the message a well-formed deposit is owed *)
+Definition item_dest (it : item) : N :=
+  match i_kind it with
+  | KBtc => dec_value (btc_dom_part (as_dep it))
+  | _ => i_dest it
+  end.
+
+Definition to_deposit (nonce : N) (it : item) : Model.C06.deposit * status :=
+  (if item_wf it then Good (item_dest it, nonce)
+   else Bad (match i_meas it with
+             | MOk d => Model.C06.Ok (d, nonce) | MErr => Model.C06.Err | MPanic => Model.C06.Panic | MSkip => Skip
+             end),
+   i_st it).
+
+Inductive ievent := ISkip (n : N) | IDeps (l : list item).    (* ISkip n: a skipped event of n deposits *)
+
+(* nonces are the 1-based positions of the deposits in the whole case *)
+Fixpoint number (k : N) (l : list item) : list (Model.C06.deposit * status) :=
+  match l with [] => [] | it :: r => to_deposit k it :: number (k + 1) r end.
+
+Fixpoint to_events (k : N) (es : list ievent) : list revent :=
+  match es with
+  | [] => []
+  | ISkip n :: r => RSkip :: to_events (k + n) r
+  | IDeps l :: r => RDeps (number k l) :: to_events (k + N.of_nat (List.length l)) r
+  end.
 
 (* impl: crashed (child process died / timed out), failed (an error was returned), the groups as
    (destination, nonces) sorted by destination. *)
-Inductive case := Case (p : path) (es : list revent) (crashed failed : bool) (impl : list (N * list N)).
+Inductive case := Case (p : path) (ies : list ievent) (crashed failed : bool) (impl : list (N * list N)).
 
 Definition to_groups (l : list (N * list N)) : groups :=
   map (fun kn => (fst kn, map (fun n => (fst kn, n)) (snd kn))) l.
@@ -29,7 +84,8 @@ Definition impl_result (failed : bool) (impl : list (N * list N)) : result :=
 
 Definition agree (c : case) : bool :=
   match c with
-  | Case p es crashed failed impl =>
+  | Case p ies crashed failed impl =>
+      let es := to_events 1 ies in
       negb crashed &&
       match run p es, impl_result failed impl with
       | Done g, Done g' => groups_eqb g g'
@@ -40,15 +96,16 @@ Definition agree (c : case) : bool :=
 
 Definition judge (c : case) : bool :=
   match c with
-  | Case p es crashed failed impl => spec_ok p es crashed (impl_result failed impl)
+  | Case p ies crashed failed impl => Model.C06.spec_ok p (to_events 1 ies) crashed (impl_result failed impl)
   end.
 
-Definition is_bad (x : deposit * status) : bool := match fst x with Bad _ => true | _ => false end.
+Definition is_bad (x : Model.C06.deposit * status) : bool := match fst x with Bad _ => true | _ => false end.
 
 (* branch tag: path x (some poisoned deposit present?) x (some message owed?) *)
 Definition tag (c : case) : N :=
   match c with
-  | Case p es _ _ _ =>
+  | Case p ies _ _ _ =>
+      let es := to_events 1 ies in
       (match p with EvmDeposits => 0 | SubDeposits => 4 | BtcDeposits => 8 | EvmRetryV1 => 12 | SubRetry => 16 end)
       + (if existsb is_bad (flat es) then 2 else 0)
       + (match filter_map (owed p) (flat es) with [] => 0 | _ => 1 end)
